@@ -1084,6 +1084,10 @@ def run(ctx):
 	entries, typo_count, constants = extract_regexes()
 	catalogue = build_catalogue(entries, constants)
 	base, files = tree_files()
+	import exclusions  # pylint: disable=import-error,import-outside-toplevel
+	skipped = [relpath for relpath in files if any(pattern.match(relpath) for pattern in exclusions.SKIP_FILES)]
+	files = [relpath for relpath in files if relpath not in skipped]
+	ctx.count('files:skipped-by-the-linter-itself', len(skipped))
 	rng = ctx.rng
 	full = start_full_run(ctx)
 	try:
